@@ -180,3 +180,7 @@ b("b-rename-pipe", "C14,C19,C20", [("src/helpers/syscalls.rs", "register_pipe", 
 b("b-rename-stack-impl", "C17,C10", [("src/state/memory.rs", "init_stack_program_start_impl", "build_entry_frame", True)], "private frame builder renamed")
 m("c12-chain-finished", "C12", "src/state/hooks.rs", "if ax.state.finished || res == HookResult::Handled {", "if res == HookResult::Handled {", "C12.iterate", "the hook chain goes on after a hook stopped execution")
 m("c12-chain-unhandled", "C12", "src/state/hooks.rs", "if ax.state.finished || res == HookResult::Handled {", "if ax.state.finished || res == HookResult::Unhandled {", "C12.iterate", "Unhandled ends the chain, Handled continues")
+b("b-rename-hook-internals", "C11,C12,C03,C19,C20", [("src/state/hooks.rs", "run_functions", "run_chain", True), ("src/state/hooks.rs", "fn mnemonic_hooks", "fn hooks_for_mnemonic"), ("src/state/execute.rs", "self.mnemonic_hooks(", "self.hooks_for_mnemonic(", True),
+   ("src/instructions/int1.rs", "self.mnemonic_hooks(", "self.hooks_for_mnemonic(", True), ("src/instructions/int3.rs", "self.mnemonic_hooks(", "self.hooks_for_mnemonic(", True),
+   ("src/instructions/int.rs", "self.mnemonic_hooks(", "self.hooks_for_mnemonic(", True), ("src/instructions/syscall.rs", "self.mnemonic_hooks(", "self.hooks_for_mnemonic(", True)], "private hook helpers renamed")
+b("b-rename-empty", "C11,C15,C16,C20,C09", [("src/axecutor.rs", "fn empty()", "fn blank()"), ("src/axecutor.rs", "Axecutor::empty()", "Axecutor::blank()", True), ("src/elf/elf.rs", "Axecutor::empty()", "Axecutor::blank()", True)], "private constructor helper renamed")
